@@ -7,7 +7,6 @@ import (
 	"strings"
 
 	"github.com/cnotch/ipchub/media"
-	"github.com/cnotch/ipchub/utils"
 	"github.com/cnotch/scheduler"
 	"github.com/cnotch/xlog"
 
@@ -19,8 +18,13 @@ import (
 
 // ---------------------------------------------------------------- reference model
 
-var spell = []string{"/a", " /A/../a ", "/b"} // stream objects 0,1 share the canonical path /a
-var lookups = []string{"/a", "/A", " a ", "/x/../a", "/b", "/c"}
+var spell = []string{"/a", " /A/../a/. ", "/b"} // stream objects 0,1 share the canonical path /a
+var spellCanon = []string{"/a", "/a", "/b"}      // written out: the model does not ask the implementation what is canonical
+
+// lookup spelling -> canonical path (written out by hand from the rule: trim, lower-case, leading
+// slash, "." / ".." / empty elements resolved; seed C05-r5-m1 broke the trailing "." / ".." case)
+var lookupCanon = map[string]string{"/a": "/a", "/A": "/a", " a ": "/a", "/x/../a": "/a", "/a/.": "/a", "/a/x/..": "/a", "//a": "/a", "/b": "/b", "/b/c/..": "/b", "/c": "/c", "/a/b": "/a/b"}
+var lookups = []string{"/a", "/A", " a ", "/x/../a", "/a/.", "/a/x/..", "//a", "/b", "/b/c/..", "/c", "/a/b"}
 
 type mstream struct {
 	open       bool
@@ -43,7 +47,7 @@ func newModel() *model {
 	return m
 }
 
-func canon(i int) string { return utils.CanonicalPath(spell[i]) }
+func canon(i int) string { return spellCanon[i] }
 
 func (m *model) closeStream(i int) {
 	m.st[i].open = false
@@ -267,7 +271,7 @@ func compare(m *model, im *impl) (string, string) {
 		return -1
 	}
 	for _, lp := range lookups {
-		want := m.live(utils.CanonicalPath(lp))
+		want := m.live(lookupCanon[lp])
 		got := -1
 		if s := media.Get(lp); s != nil {
 			got = idx(s)
